@@ -144,7 +144,6 @@ class Contract:
     doc: str = ""
     file: str = ""
     tags: dict[str, list[str]] = field(default_factory=dict)  # ensures-label -> properties
-    variants: list[dict[str, Any]] = field(default_factory=list)  # alternative param instantiations (e.g. per subclass)
     is_lemma: bool = False
     lemma_src: str = ""
     cover: Callable[[Any], dict[str, Any]] | None = None
@@ -152,6 +151,8 @@ class Contract:
     case_split: Callable[[Any], dict[str, Any]] | None = None   # call sites fork on these (exhaustive) cases: keeps queries small
     shards: int = 1       # discharge this function's obligations in that many worker processes
     advances: dict[str, int] = field(default_factory=dict)           # iterator parameter -> items consumed on normal return
+    variants: list = field(default_factory=list)                     # list of {param: Sort} overrides; the body is verified once per variant
+    inline_at_calls: bool = False                                    # verified against this contract, but call sites execute the body
     tag_suffix: dict[str, list[str]] = field(default_factory=dict)   # ensures-label suffix -> properties
     ghost_enter: Callable[[Any], None] | None = None                  # ghost prologue (body verification only)
 
@@ -210,6 +211,8 @@ def contract(key: str, serves: list[str] | None = None, trusted: bool = False, i
             case_split=_fn(cls, "case_split"),
             shards=int(cls.__dict__.get("shards", 1)),
             advances=dict(cls.__dict__.get("advances", {})),
+            variants=list(cls.__dict__.get("variants", [])),
+            inline_at_calls=bool(cls.__dict__.get("inline_at_calls", False)),
             tag_suffix=dict(cls.__dict__.get("tag_suffix", {})),
             ghost_enter=_fn(cls, "ghost_enter"),
         )
